@@ -1,6 +1,6 @@
 SPECIFICATION Spec
 CONSTANTS
-  Scenarios <- Scen_all
+  Scenarios <- Scen_small
   Acts <- ActsAll
   MaxDepth = 1
   MaxFields = 3
@@ -9,6 +9,9 @@ CONSTANTS
   ScaleFs <- ScaleFs_all
   RotKs <- RotKs_all
   RotRefs <- RotRefs_all
+  RotPairs <- RotPairs_all
+  Rich = TRUE
+  LastFresh = FALSE
   PadSpecs <- Pad_all
   Masks <- Masks_all
   Nums <- Nums_all
